@@ -174,6 +174,8 @@ type c12Tok struct {
 	// logoutAborted: the client of its logout request had gone away (request
 	// context cancelled) before the handler ran.
 	logoutAborted bool
+	// logoutSecFetchSite is the Sec-Fetch-Site header of its logout request.
+	logoutSecFetchSite string
 	// damaged: a later start found sessions.db damaged; damageAfterLogout is
 	// the kind of damage of the first such start after its logout.
 	damaged           bool
@@ -215,6 +217,8 @@ type c12Hist struct {
 	// damage is the kind of damage done to sessions.db before the last start
 	// ("" = none).
 	damage string
+	// extraHdrs are the browser / proxy headers of the next request.
+	extraHdrs []c12Hdr
 }
 
 func (h *c12Hist) now() int64 { return time.Now().Unix() - c12Epoch.Unix() }
@@ -387,6 +391,11 @@ func (h *c12Hist) doLogin(raddr, name, pw string, hdrs []c12Hdr, carry *string) 
 	if carry != nil {
 		r.Header.Set("Cookie", sessionCookieName+"="+*carry)
 	}
+	for _, x := range h.extraHdrs {
+		if x.name != "X-Body" && x.name != "X-Forwarded-For" && x.name != "X-Real-IP" {
+			r.Header.Set(x.name, x.val)
+		}
+	}
 	w := httptest.NewRecorder()
 	func() {
 		defer func() { pan = recover() }()
@@ -404,6 +413,42 @@ func (h *c12Hist) doLogin(raddr, name, pw string, hdrs []c12Hdr, carry *string) 
 	return res.StatusCode, cookie, hasCookie, res.Header.Get("Retry-After"), nil
 }
 
+// browserHeaders draws the headers browsers and proxies add to a request.
+// They are part of the workload only: a login is a login and a logout is a
+// logout whatever else the request carries.
+func (h *c12Hist) browserHeaders() (hdrs []c12Hdr) {
+	if h.rng.Intn(10) < 4 {
+		return nil
+	}
+	own, foreign := "http://192.0.2.53:3000", "https://evil.example"
+	add := func(odds int, name string, vals ...string) {
+		if h.rng.Intn(odds) == 0 {
+			hdrs = append(hdrs, c12Hdr{name: name, val: vals[h.rng.Intn(len(vals))]})
+		}
+	}
+	add(2, "Sec-Fetch-Site", "same-origin", "same-site", "cross-site", "none")
+	add(3, "Sec-Fetch-Mode", "navigate", "cors", "no-cors", "same-origin")
+	add(3, "Sec-Fetch-Dest", "document", "empty", "image", "iframe")
+	add(3, "Origin", own, foreign, "null")
+	add(3, "Referer", own+"/", own+"/#settings", foreign+"/page.html")
+	add(4, "X-Requested-With", "XMLHttpRequest", "fetch")
+	add(4, "X-Forwarded-For", "10.9.8.7", "127.0.0.1, 10.1.1.1", "unknown")
+	add(4, "X-Real-IP", "10.9.8.7", "127.0.0.2")
+	add(4, "Accept", "*/*", "text/html,application/xhtml+xml", "application/json")
+	add(4, "Cache-Control", "no-cache", "max-age=0")
+	add(6, "Sec-Fetch-User", "?1")
+	add(8, "X-Body", "GET-with-a-body")
+	return hdrs
+}
+
+func c12HdrText(hdrs []c12Hdr) string {
+	var parts []string
+	for _, x := range hdrs {
+		parts = append(parts, fmt.Sprintf("%s: %s", x.name, x.val))
+	}
+	return strings.Join(parts, " | ")
+}
+
 // doReq sends a GET through the real authentication middleware: to an
 // optionalAuth-wrapped probe handler, or (logout) to optionalAuth(handleLogout),
 // which is how the product routes /control/logout.  cookies are the
@@ -412,6 +457,17 @@ func (h *c12Hist) doLogin(raddr, name, pw string, hdrs []c12Hdr, carry *string) 
 // whether the wrapped handler ran, i.e. whether the request was authenticated.
 func (h *c12Hist) doReq(raddr, path string, cookies, basic []string, logout bool) (ran bool, status int, cleared bool, pan any) {
 	r := httptest.NewRequest(http.MethodGet, path, nil)
+	for _, x := range h.extraHdrs {
+		if x.name == "X-Body" {
+			r = httptest.NewRequest(http.MethodGet, path, strings.NewReader("logout=1&x=y"))
+			r.Header.Set("Content-Type", "application/x-www-form-urlencoded")
+		}
+	}
+	for _, x := range h.extraHdrs {
+		if x.name != "X-Body" {
+			r.Header.Set(x.name, x.val)
+		}
+	}
 	r.RemoteAddr = raddr
 	if h.clientGone {
 		// The client has gone away before the handler runs: net/http cancels
@@ -625,7 +681,15 @@ func (h *c12Hist) login(ai int, kind string) {
 		}
 		return fmt.Sprintf(":while-%d+-other-addresses-tracked", p)
 	}
+	if h.cfg.Family == "" {
+		h.extraHdrs = h.browserHeaders()
+		if len(h.extraHdrs) > 0 {
+			st.Detail += " headers=[" + c12HdrText(h.extraHdrs) + "]"
+			h.rep.Event("logins_with_browser_headers")
+		}
+	}
 	status, cookie, hasCookie, retry, pan := h.doLogin(raddr, name, pw, hdrs, carry)
+	h.extraHdrs = nil
 	// claimKey qualifies violation keys by what the attempts of the run and
 	// this attempt claimed about their address.
 	claimKey := ""
@@ -1108,6 +1172,25 @@ func (h *c12Hist) cookieReq(logout bool) {
 		st.Exp += " [" + zone + "]"
 	}
 
+	extra := h.browserHeaders()
+	secFetchSite := ""
+	if len(extra) > 0 {
+		st.Detail += " headers=[" + c12HdrText(extra) + "]"
+		h.rep.Event("requests_with_browser_or_proxy_headers")
+		if logout {
+			h.rep.Event("logout_requests_with_browser_or_proxy_headers")
+		}
+		for _, x := range extra {
+			if x.name == "Sec-Fetch-Site" {
+				secFetchSite = x.val
+				if logout {
+					h.rep.Event("logout_requests_with_sec_fetch_site:" + x.val)
+				}
+			}
+		}
+	}
+	h.extraHdrs = extra
+	defer func() { h.extraHdrs = nil }()
 	aborted := logout && h.force < 0 && len(cks) > 0 && cks[0].tok >= 0 && h.rng.Intn(5) == 0
 	if aborted {
 		st.Detail += " [client gone: request context cancelled before the handler runs]"
@@ -1176,6 +1259,10 @@ func (h *c12Hist) cookieReq(logout bool) {
 		if k.damageAfterLogout != "" {
 			h.rep.Event("session_reject_checks_after_logout_and_start_on_a_damaged_db")
 			sfx += ":after-start-on-damaged-db"
+		}
+		if k.logoutSecFetchSite != "" {
+			h.rep.Event("session_reject_checks_after_logout_with_sec_fetch_site:" + k.logoutSecFetchSite)
+			sfx += ":logout-carried-sec-fetch-site-" + k.logoutSecFetchSite
 		}
 		if k.logoutAborted {
 			h.rep.Event("session_reject_checks_after_client_aborted_logout")
@@ -1304,6 +1391,10 @@ func (h *c12Hist) cookieReq(logout bool) {
 			o.logoutFault = h.fault
 			o.logoutMulti = multi
 			o.logoutAborted = aborted
+			o.logoutSecFetchSite = secFetchSite
+			if len(extra) > 0 {
+				h.rep.Event("logouts_with_browser_or_proxy_headers")
+			}
 			if aborted {
 				h.rep.Event("logouts_processed_after_the_client_had_gone_away")
 			}
